@@ -23,6 +23,7 @@ import (
 	"encoding/hex"
 	"fmt"
 	"os"
+	"runtime/debug"
 	"sort"
 	"strconv"
 	"strings"
@@ -30,6 +31,7 @@ import (
 
 	cluster "github.com/envoyproxy/go-control-plane/envoy/config/cluster/v3"
 	corev3 "github.com/envoyproxy/go-control-plane/envoy/config/core/v3"
+	endpoint "github.com/envoyproxy/go-control-plane/envoy/config/endpoint/v3"
 	listener "github.com/envoyproxy/go-control-plane/envoy/config/listener/v3"
 	hcm "github.com/envoyproxy/go-control-plane/envoy/extensions/filters/network/http_connection_manager/v3"
 	"google.golang.org/protobuf/encoding/prototext"
@@ -51,6 +53,8 @@ import (
 	pxds "istio.io/istio/pilot/pkg/xds"
 	txds "istio.io/istio/pilot/test/xds"
 	"istio.io/istio/pkg/config"
+	"istio.io/istio/pkg/config/mesh"
+	"istio.io/istio/pkg/config/mesh/meshwatcher"
 	"istio.io/istio/pkg/config/schema/collections"
 	"istio.io/istio/pkg/config/schema/kind"
 	"istio.io/istio/pkg/util/sets"
@@ -114,20 +118,22 @@ func (c permCase) proxies() []proxySpec {
 
 // setProfile switches the process-wide feature flags of the profile on; the returned function restores them.
 func (c permCase) setProfile() func() {
-	a, w, pb := features.EnableAmbient, features.EnableAmbientWaypoints, features.SidecarPickBestServiceNamespace
+	a, w, pb, cc := features.EnableAmbient, features.EnableAmbientWaypoints, features.SidecarPickBestServiceNamespace, features.ConvertSidecarScopeConcurrency
 	if c.prof == "waypoint" {
 		features.EnableAmbient, features.EnableAmbientWaypoints = true, true
 	}
 	if c.flag == "nopickbest" {
 		features.SidecarPickBestServiceNamespace = false
 	}
+	if c.flag == "sidecarconc" {
+		features.ConvertSidecarScopeConcurrency = 4
+	}
 	return func() {
-		features.EnableAmbient, features.EnableAmbientWaypoints, features.SidecarPickBestServiceNamespace = a, w, pb
+		features.EnableAmbient, features.EnableAmbientWaypoints, features.SidecarPickBestServiceNamespace, features.ConvertSidecarScopeConcurrency = a, w, pb, cc
 	}
 }
 
 var permTypes = []string{"CDS", "EDS", "LDS", "RDS", "ECDS", "NDS"}
-
 
 // ---------------------------------------------------------------- case lines
 
@@ -136,7 +142,7 @@ type permCase struct {
 	seed uint64
 	mesh string // name of a hand-written witness mesh (witness.go); "" = the generated mesh of `seed`
 	prof string // "" (sidecars + router) or "waypoint" (ambient on, waypoint proxy)
-	flag string // "" or "nopickbest" (PILOT_SIDECAR_PICK_BEST_SERVICE_NAMESPACE=false)
+	flag string // "", "nopickbest" (PILOT_SIDECAR_PICK_BEST_SERVICE_NAMESPACE=false) or "sidecarconc" (PILOT_CONVERT_SIDECAR_SCOPE_CONCURRENCY=4)
 	k, r int
 	keep []int // nil = all
 }
@@ -198,10 +204,23 @@ func (c permCase) line() []string {
 
 // meshConfig of the case (nil = default).
 func (c permCase) meshConfig() *meshconfig.MeshConfig {
+	if f, ok := witnessMeshConfigs[c.mesh]; ok && c.mesh != "" {
+		m := mesh.DefaultMeshConfig()
+		f(m)
+		return m
+	}
 	if c.mesh != "" || c.prof == "waypoint" {
 		return nil
 	}
 	return buildMesh(c.seed).mc
+}
+
+// meshNetworks of the case (nil = single network).
+func (c permCase) meshNetworks() *meshconfig.MeshNetworks {
+	if c.mesh != "" || c.prof == "waypoint" {
+		return nil
+	}
+	return buildMesh(c.seed).nets
 }
 
 func (c permCase) allObjects() []obj {
@@ -240,8 +259,10 @@ func genPerm(seed uint64, n int, outp string) {
 		c := permCase{n: strconv.Itoa(i), seed: root.Next() % 1000000007, k: k, r: r}
 		if i%6 == 5 {
 			c.prof = "waypoint"
-		} else if i%6 == 2 {
+		} else if i%12 == 2 {
 			c.flag = "nopickbest"
+		} else if i%12 == 8 {
+			c.flag = "sidecarconc"
 		}
 		out.Line(c.line()...)
 	}
@@ -250,10 +271,11 @@ func genPerm(seed uint64, n int, outp string) {
 // ---------------------------------------------------------------- building one world
 
 type world struct {
-	f       *failer
-	s       *txds.FakeDiscoveryServer
-	proxies []proxySpec
-	shared  map[string]bool // "ns/host" claimed by two or more ServiceEntries of that namespace
+	f        *failer
+	s        *txds.FakeDiscoveryServer
+	proxies  []proxySpec
+	shared   map[string]bool // "ns/host" claimed by two or more ServiceEntries of that namespace
+	multiNet bool            // the mesh has two networks: the proxies live on n1
 }
 
 // sharedHosts lists the "namespace/host" keys that several ServiceEntries of one namespace claim.
@@ -308,7 +330,7 @@ func createLateK8s(s *txds.FakeDiscoveryServer, o runtime.Object) error {
 }
 
 // buildWorld inserts `objs` in the given order; the first `early` of them before the server starts.
-func buildWorld(objs []obj, early int, mc *meshconfig.MeshConfig) *world {
+func buildWorld(objs []obj, early int, mc *meshconfig.MeshConfig, nets *meshconfig.MeshNetworks) *world {
 	w := &world{f: &failer{}}
 	var cfgs []config.Config
 	var k8s []runtime.Object
@@ -325,6 +347,9 @@ func buildWorld(objs []obj, early int, mc *meshconfig.MeshConfig) *world {
 	opts := txds.FakeOptions{Configs: cfgs, KubernetesObjects: k8s}
 	if mc != nil {
 		opts.MeshConfig = proto.Clone(mc).(*meshconfig.MeshConfig)
+	}
+	if nets != nil {
+		opts.NetworksWatcher = meshwatcher.NewFixedNetworksWatcher(proto.Clone(nets).(*meshconfig.MeshNetworks))
 	}
 	w.s = txds.NewFakeDiscoveryServer(w.f, opts)
 	quiet.Silence()
@@ -537,7 +562,8 @@ func (w *world) settle(want string, timeout, restFor time.Duration) (string, int
 			if time.Since(since) >= restFor {
 				return fp, stableDifferent
 			}
-		} else if stable >= 6 {
+		} else if stable >= 6 && time.Since(since) >= restFor/5 {
+			// no reference yet (build 0): unchanged for 6 reads AND for a fifth of the rest period (300 ms)
 			return fp, settled
 		}
 		if time.Now().After(deadline) {
@@ -562,6 +588,9 @@ func setupProxy(w *world, p *model.Proxy, push *model.PushContext) *model.Proxy 
 	p.IstioVersion = model.ParseIstioVersion(p.Metadata.IstioVersion)
 	if p.WatchedResources == nil {
 		p.WatchedResources = map[string]*model.WatchedResource{}
+	}
+	if w.multiNet {
+		p.Metadata.Network = "n1"
 	}
 	p.SetSidecarScope(push)
 	p.SetServiceTargets(w.s.Env().ServiceDiscovery)
@@ -718,12 +747,21 @@ func deltaRemoved(w *world, p *model.Proxy, push *model.PushContext, typ string,
 // in Go map order (documented: UnsortedList). EDS only exists through the set. "DCDS" / "DCDS.removed":
 // delta-aware CDS; "DLDS.removed" / "DRDS.removed": removed_resources of a delta push; "RKEY": the
 // cache key of every sidecar route configuration.
-func (w *world) snapshot(prev *model.PushContext, rep int) (snapshot, *model.PushContext) {
+//
+// With `cached` the PushContext `prev` itself is used again and the XDS cache is NOT cleared: what the cache
+// still holds from the previous generation (clusters, endpoints, route configurations) is served, to
+// proxies arriving in another order - the bytes must be those of a fresh generation.
+func (w *world) snapshot(prev *model.PushContext, rep int, cached bool) (snapshot, *model.PushContext) {
 	env := w.s.Env()
-	w.s.Discovery.Cache.ClearAll()
-	push := model.NewPushContext()
-	push.PushVersion = "verif"
-	if prev == nil {
+	push := prev
+	if !cached {
+		w.s.Discovery.Cache.ClearAll()
+		push = model.NewPushContext()
+		push.PushVersion = "verif"
+	}
+	if cached {
+		// nothing to initialise
+	} else if prev == nil {
 		push.InitContext(env, nil, nil)
 	} else {
 		if k := os.Getenv("C17_INCR_KIND"); k != "" {
@@ -743,6 +781,27 @@ func (w *world) snapshot(prev *model.PushContext, rep int) (snapshot, *model.Pus
 		cds := generate(w, p, push, "CDS", nil)
 		out[ps.name+":CDS"] = cds
 		out[ps.name+":EDS.viaset"] = generate(w, p, push, "EDS", edsNames(cds))
+		if os.Getenv("C17_EDSDUMP") != "" && rep == 0 {
+			// debugging aid: the endpoint addresses of every ClusterLoadAssignment (is the split-horizon path taken?)
+			fmt.Fprintf(os.Stderr, "EDS %s network gateways: %v\n", ps.name, push.NetworkManager().AllGateways())
+			for _, l := range w.fingerprintLines() {
+				if strings.HasPrefix(l, "ep ") && i == 0 {
+					fmt.Fprintln(os.Stderr, "EDS state", l)
+				}
+			}
+			for _, r := range out[ps.name+":EDS.viaset"] {
+				cla := &endpoint.ClusterLoadAssignment{}
+				if r.any.UnmarshalTo(cla) == nil {
+					var addrs []string
+					for _, le := range cla.Endpoints {
+						for _, e := range le.LbEndpoints {
+							addrs = append(addrs, fmt.Sprintf("%s:%d", e.GetEndpoint().GetAddress().GetSocketAddress().GetAddress(), e.GetEndpoint().GetAddress().GetSocketAddress().GetPortValue()))
+						}
+					}
+					fmt.Fprintf(os.Stderr, "EDS %s %s: %v\n", ps.name, cla.ClusterName, addrs)
+				}
+			}
+		}
 		lds := generate(w, p, push, "LDS", nil)
 		out[ps.name+":LDS"] = lds
 		routes, ecds := ldsRefs(lds)
@@ -811,6 +870,7 @@ type caseRun struct {
 	snaps     []snapshot          // kept only when `keepRaw`
 	runTag    []string            // "k/r" of each run
 	unsettled string
+	panicked  string // a panic of the real code or of the harness while running the case
 	stateDiff string // first difference of a stable-but-different state (explain)
 	nres      int
 	nobjs     int
@@ -824,7 +884,8 @@ func insertionOrder(c permCase, objs []obj, k int) ([]obj, int) {
 	if k == 0 {
 		return objs, len(objs)
 	}
-	r := wire.NewRng(c.seed*1000003 + uint64(k)*7919)
+	// the process index is mixed in: the two processes of a run explore different insertion orders
+	r := wire.NewRng(c.seed*1000003 + uint64(k)*7919 + uint64(atoi(os.Getenv("C17_PROC")))*104729)
 	// Nodes exist before anything is scheduled on them: they stay in front, at start-up
 	// (a Node arriving after its Pods never refreshes the endpoints' locality; with C17_NODES_ANYWHERE
 	// they are permuted like everything else and the difference shows as perm:state-order:ep).
@@ -859,8 +920,13 @@ func settleTimeout() time.Duration {
 }
 
 func runCase(c permCase, keepRaw bool) (cr *caseRun) {
+	if t := os.Getenv("C17_TEST_PANIC"); t != "" && t == c.n && os.Getenv("C17_PROC") != "0" {
+		// self-test of the check: a crash in one process only must break the tie (notes/C17.md, review round 2 M5)
+		panic("C17_TEST_PANIC")
+	}
 	objs := c.objects()
 	mc := c.meshConfig()
+	nets := c.meshNetworks()
 	defer c.setProfile()()
 	cr = &caseRun{digests: map[string][]string{}, nobjs: len(objs)}
 	shared := sharedHosts(objs)
@@ -869,7 +935,8 @@ func runCase(c permCase, keepRaw bool) (cr *caseRun) {
 	var states []map[string]string
 	for k := 0; k < c.k; k++ {
 		order, early := insertionOrder(c, objs, k)
-		w := buildWorld(order, early, mc)
+		w := buildWorld(order, early, mc, nets)
+		w.multiNet = nets != nil
 		w.proxies = c.proxies()
 		w.shared = shared
 		fp, st := w.settle(want, settleTimeout(), 1500*time.Millisecond)
@@ -917,7 +984,7 @@ func runCase(c permCase, keepRaw bool) (cr *caseRun) {
 			if r%3 == 2 {
 				from = prev
 			}
-			snap, push := w.snapshot(from, k*c.r+r)
+			snap, push := w.snapshot(from, k*c.r+r, false)
 			prev = push
 			if k == 0 && r == 0 {
 				for key := range snap {
@@ -941,6 +1008,24 @@ func runCase(c permCase, keepRaw bool) (cr *caseRun) {
 			if keepRaw {
 				cr.snaps = append(cr.snaps, snap)
 				cr.runTag = append(cr.runTag, fmt.Sprintf("build%d/gen%d", k, r))
+			}
+			if r == c.r-1 {
+				// one more generation from the same PushContext WITHOUT clearing the XDS cache (cache hits)
+				csnap, _ := w.snapshot(push, k*c.r+r+1, true)
+				for _, key := range cr.keys {
+					rs := csnap[key]
+					if base, ok := strings.CutSuffix(key, ".viaset"); ok {
+						cr.add(base, digest(rs, true))
+						cr.add(base+".setorder", digest(rs, false))
+					} else {
+						cr.add(key, digest(rs, true))
+						cr.add(key+".order", digest(rs, false))
+					}
+				}
+				if keepRaw {
+					cr.snaps = append(cr.snaps, csnap)
+					cr.runTag = append(cr.runTag, fmt.Sprintf("build%d/cached", k))
+				}
 			}
 		}
 		// the state must not have moved while we were generating
@@ -985,7 +1070,9 @@ func (cr *caseRun) obsKeys() []string {
 }
 
 // orderKey: an observation of the ORDER of a response (as opposed to its content).
-func orderKey(k string) bool { return strings.HasSuffix(k, ".order") || strings.HasSuffix(k, ".setorder") }
+func orderKey(k string) bool {
+	return strings.HasSuffix(k, ".order") || strings.HasSuffix(k, ".setorder")
+}
 
 func allEqual(l []string) bool {
 	for _, x := range l {
@@ -994,6 +1081,24 @@ func allEqual(l []string) bool {
 		}
 	}
 	return true
+}
+
+// panicSite: the first frames of the panicking goroutine below the runtime (where the real code or the harness panicked).
+func panicSite() string {
+	var frames []string
+	for _, l := range strings.Split(string(debug.Stack()), "\n") {
+		l = strings.TrimSpace(l)
+		if strings.HasPrefix(l, "/") && !strings.Contains(l, "/runtime/") && !strings.Contains(l, "panicSite") && !strings.Contains(l, "observePerm") {
+			if i := strings.Index(l, " +0x"); i > 0 {
+				l = l[:i]
+			}
+			frames = append(frames, l)
+			if len(frames) >= 3 {
+				break
+			}
+		}
+	}
+	return strings.Join(frames, " < ")
 }
 
 func observePerm(in, outp string) {
@@ -1008,7 +1113,7 @@ func observePerm(in, outp string) {
 		func() {
 			defer func() {
 				if r := recover(); r != nil {
-					cr = &caseRun{unsettled: "panic: " + fmt.Sprint(r)}
+					cr = &caseRun{panicked: fmt.Sprint(r) + " @ " + panicSite()}
 					if os.Getenv("C17_DEBUG") != "" {
 						panic(r)
 					}
@@ -1026,11 +1131,22 @@ func observePerm(in, outp string) {
 			fl = append(fl, k+":"+strconv.Itoa(v))
 		}
 		sort.Strings(fl)
+		if mc := c.meshConfig(); mc != nil && mc.ProxyHttpPort > 0 {
+			fl = append(fl, "mesh-proxy-http-port:1")
+		}
+		if c.meshNetworks() != nil {
+			fl = append(fl, "mesh-two-networks:1")
+		}
+		if c.flag != "" {
+			fl = append(fl, "flag-"+c.flag+":1")
+		}
 		out.Line("info", "feat="+joinElems(fl), "svcs="+strconv.Itoa(cr.svcs), "dupkeys="+strconv.Itoa(cr.dupKeys))
 		if cr.stateDiff != "" {
 			out.Line("info", "statediff="+wire.Enc(cr.stateDiff))
 		}
-		if cr.unsettled != "" {
+		if cr.panicked != "" {
+			out.Line("panic", wire.Enc(cr.panicked))
+		} else if cr.unsettled != "" {
 			out.Line("skip", wire.Enc(cr.unsettled))
 		} else {
 			for _, k := range cr.obsKeys() {
@@ -1049,6 +1165,8 @@ func monLine(f []string) string {
 		return "ok"
 	case "skip":
 		return "skip"
+	case "panic":
+		return "panic"
 	case "obs":
 		if len(f) < 2 {
 			return "bad-op"
@@ -1125,12 +1243,12 @@ func caseVerdict(c permCase, contentOnly bool) string {
 	func() {
 		defer func() {
 			if r := recover(); r != nil {
-				cr = &caseRun{unsettled: fmt.Sprint(r)}
+				cr = &caseRun{panicked: fmt.Sprint(r)}
 			}
 		}()
 		cr = runCase(c, false)
 	}()
-	if cr.unsettled != "" {
+	if cr.unsettled != "" || cr.panicked != "" {
 		return ""
 	}
 	var bad []string
